@@ -35,6 +35,16 @@ def run(tier, seed):
                               stack_mb=8, cpu=60, timeout_is_violation=True)
         v.absorb(res, byname, seed, floor_cases=n)
         v.absorb(res2, byname, seed, floor_cases=400)
+        fuzz_stats = None
+        if thorough:
+            seeds = [bytes([i % 4 + 4 * (i % 3)]) + d for i, d in enumerate([
+                b'<loop set="list" value="v">{var:v}{math:v+1}</loop>', b'<if case="{var:a} > 3">A<elseif case="b">B<else>C</if>',
+                b'{if case="{var:a}==5" true="{var:s}" false="{raw:s}"}', b'{svar:ph, {var:a}, {raw:s}, {math:1+1}}',
+                b'<loop set="recs" value="r" group="y" sort="ascend"><loop set="r" value="q">{var:q[m]}</loop></loop>',
+                b'{math: (a+b)*c % 2 ^ 2 && 1 || 0 }{var:obj[c][1]}{var:list[3][0]}', b'<loop value="x">{var:x}</loop>',
+                b'{var:', b'<if case="', b'</loop></if><else>{math:1/0}{math:1%0}'])]
+            fuzz_stats = vlib.fuzz_stage(v, "C01", "fuzz_tmpl", seed, 1500000, 14, 700, seeds, wd, dictionary="tmpl.dict",
+                                         extra=("-fexceptions",))
         c = res.counters
         kinds = {k[8:]: c[k] for k in c if k.startswith("tagkind_")}
         cov = {
@@ -59,6 +69,7 @@ def run(tier, seed):
             "ledger_events": c.get("ledger_allocs", 0) + c.get("ledger_frees", 0),
             "per_build_cases": {**res.per_cfg_cases, **{k + "(8MiB stack)": x for k, x in res2.per_cfg_cases.items()}},
             "builds": [x.describe() for x in cfgs], "cases_not_explored": res.unexplored + res2.unexplored,
+            "libfuzzer_stage": fuzz_stats if fuzz_stats else "thorough tier only",
         }
         return v.finish(cov, ["template length <= 4 KiB except the narrow-field family", "allocation failure is not injected",
                               "arithmetic overflow inside {math:} is not a trap and is not flagged",
